@@ -58,6 +58,7 @@ func (b *schemaBuilder) schemaForType(typ reflect.Type) (Schema, error) {
 	if s, ok := isInSchemaRegistry(typ); ok {
 		return s, nil
 	}
+	verifPoint(vpSchemaRegistryAfterLookup)
 
 	// BigQuery makes every basic type nullable. We'll send null for the zero
 	// value if there's an "omitempty" tag.
